@@ -11,6 +11,10 @@ THEOREMS = ["C11_second_write_same_text_partial", "C11_second_write_same_text_no
             "C11_second_header_same_lines", "C11_second_cycle_content_partial", "C11_content_okb_ok"]
 ASSUMPTIONS = [
     "oracle: float(fmt % x) is a fixed point of x -> float(fmt % x) (printing a printed value again gives the same text)",
+    "spacers made of blanks/tabs are the domain of the writer model; option sets with another spacer (',', ';', '') go through the "
+    "implementation-side oracle only (known finding nonblank-spacer)",
+    "an input on which the first read or write raises is outside the statement; the bases are built/filtered so that this never happens: "
+    "if it does the run reports that the correspondence could not be evaluated",
     "second cycle: same text for any number of cycles proved on the decidable domain cycle_hypsb (first written form in normal form); outside it content equality (numeric values through the numeq oracle, decidable per file) proved on cycle_whypsb under the premise that the second written form satisfies the C01/C03 file domain (closure not proved); both domains are evaluated on every chain and checked against lasio",
 ]
 
@@ -32,39 +36,76 @@ def data_part(text):
 
 WOPTS = [dict(), dict(version=1.2), dict(version=2), dict(wrap=True), dict(version=1.2, wrap=True, data_width=40),
          dict(fmt="%.3f"), dict(len_numeric_field=-1, spacer="\t"), dict(mnemonics_header=True), dict(fmt="%.6e", len_numeric_field=16),
-         dict(header_width=30, data_section_header="~A"), dict(version=2, column_fmt={0: "%.2f"}, fmt="%.4f")]
+         dict(header_width=30, data_section_header="~A"), dict(version=2, column_fmt={0: "%.2f"}, fmt="%.4f"),
+         dict(lhs_spacer=""), dict(lhs_spacer="  ", spacer="  ", wrap=True), dict(lhs_spacer="", len_numeric_field=-1, mnemonics_header=True),
+         dict(column_fmt={1: "%.2f", 2: "%.1f"}), dict(fmt="%.3f", column_fmt={0: "%.5f", 1: "%.6e", 3: "%.0f"}),
+         dict(version=1.2, column_fmt={1: "%9.4f", 4: "%.2f"}, lhs_spacer="\t")]
+
+# A4: spacers that are not a non-empty run of blanks/tabs are written verbatim between the fields, no DLM is declared, and the file does
+# not read back as written (known finding nonblank-spacer); every oracle message of this class starts with the tag
+NONBLANK_SPACERS = True
+NONBLANK_TAG = "NONBLANK-SPACER:"
+NONBLANK_WOPTS = [dict(spacer=","), dict(spacer=";"), dict(spacer=""), dict(spacer=",", version=1.2, wrap=True), dict(spacer="", len_numeric_field=-1)]
+MIN_CORPUS = 50         # example files expected to pass corpus_files.corpus() (71 on the unchanged tree)
+
+# read options used on every read of a chain
+ROPTS = [dict(), dict(), dict(), dict(mnemonic_case="preserve"), dict(mnemonic_case="lower"), dict(engine="normal"),
+         dict(ignore_header_errors=True), dict(mnemonic_case="preserve", engine="normal", ignore_header_errors=True)]
+
+
+def is_blank_spacer(s):
+    return s != "" and all(ch in " \t" for ch in s)
+
+
+def nonblank(wkw):
+    return not is_blank_spacer(wkw.get("spacer", " "))
 
 
 def snapshot(las):
     return rm.show_las(las)
 
 
-def oracle(text, wkw, k):
+def oracle(text, wkw, k, rkw=None):
     """read(write(...)) applied k+1 times equals applied once"""
     import io
     import lasio
+    rkw = rkw or {}
+    tag = (NONBLANK_TAG + " ") if nonblank(wkw) else ""
     try:
-        las = lasio.read(text)
+        las = lasio.read(text, **rkw)
         buf = io.StringIO()
         las.write(buf, **wkw)
-    except Exception:
-        return None, "not accepted"
+    except Exception as e:
+        return None, "not accepted (%s: %s)" % (type(e).__name__, str(e)[-80:])
     cur = buf.getvalue()
     try:
-        first = snapshot(lasio.read(cur))
+        first = snapshot(lasio.read(cur, **rkw))
         for i in range(k):
-            l = lasio.read(cur)
+            l = lasio.read(cur, **rkw)
             buf = io.StringIO()
             l.write(buf, **wkw)
             cur = buf.getvalue()
-            snap = snapshot(lasio.read(cur))
+            snap = snapshot(lasio.read(cur, **rkw))
             if snap != first:
                 j = next((p for p in range(min(len(snap), len(first))) if snap[p] != first[p]), 0)
-                return ("after %d more read->write cycle(s) the content differs near %r vs %r"
+                return (tag + "after %d more read->write cycle(s) the content differs near %r vs %r"
                         % (i + 1, first[max(0, j - 60):j + 60], snap[max(0, j - 60):j + 60])), "ok"
     except Exception as e:
-        return "cycle raised %s: %s" % (type(e).__name__, str(e)[-100:]), "ok"
+        return tag + "cycle raised %s: %s" % (type(e).__name__, str(e)[-100:]), "ok"
     return None, "ok"
+
+
+def delimited_base(rng):
+    """a generated base that declares DLM COMMA or DLM TAB (the data are delimited accordingly)"""
+    import lasgen
+    s = lasgen.basic_spec(rng, nrows=rng.choice([1, 2, 3]))
+    s.dlm = rng.choice(["COMMA", "COMMA", "TAB"])
+    s.wrap = "NO"
+    s.data_pad = ("", " ")
+    for i, row in enumerate(s.rows):
+        row[0] = "%.1f" % (1.0 + 0.5 * i)
+    s.well[1] = ("STOP", "M", s.rows[-1][0], "STOP")
+    return lasgen.render(s)[0]
 
 
 def bases(ctx):
@@ -72,6 +113,8 @@ def bases(ctx):
     out = [("corpus:" + n, t) for n, t in corpus_files.corpus()]
     for i in range(60 if ctx.thorough else 25):
         out.append(("gen:%d" % i, corpus_files.generated(rng)))
+    for i in range(20 if ctx.thorough else 8):
+        out.append(("dlm:%d" % i, delimited_base(rng)))
     return out
 
 
@@ -96,27 +139,43 @@ def run(ctx):
     res = lib.Result()
     rng = ctx.rng
     cases, meta, kinds, same_text, same_data = [], [], set(), [], []
-    hist = {"corpus": 0, "generated": 0, "not_accepted": 0}
+    hist = {"corpus": 0, "generated": 0, "dlm_comma_tab": 0, "not_accepted": 0, "nonblank_spacer": 0, "read_options": 0, "lhs_spacer": 0,
+            "column_fmt_j_gt_0": 0}
     bs = bases(ctx)
+    n_corpus = sum(1 for n, _ in bs if n.startswith("corpus:"))
+    not_accepted = []
     per = 6 if ctx.thorough else 1
     for name, text in bs:
         for _ in range(per):
             wkw = rng.choice(WOPTS)
+            rkw = rng.choice(ROPTS)
             k = rng.choice([1, 2, 4]) if ctx.thorough else rng.choice([1, 2])
-            bad, st = oracle(text, wkw, k)
+            if NONBLANK_SPACERS and rng.random() < 0.08:
+                # implementation-side oracle only (the writer model assumes blank spacers)
+                wnb = rng.choice(NONBLANK_WOPTS)
+                bad, st = oracle(text, wnb, k, rkw)
+                if st == "ok":
+                    hist["nonblank_spacer"] += 1
+                    if bad:
+                        res.oracle_violations.append({"payload": {"text": text, "wkw": wnb, "k": k, "rkw": rkw}, "what": "%s: %s" % (name, bad)})
+            bad, st = oracle(text, wkw, k, rkw)
             if st != "ok":
                 hist["not_accepted"] += 1
+                not_accepted.append("%s: %s" % (name, st))
                 continue
             if bad:
-                res.oracle_violations.append({"payload": {"text": text, "wkw": wkw, "k": k}, "what": "%s: %s" % (name, bad)})
-            ops = [("R", {}), ("W", wkw), ("R", {}), ("W", wkw), ("R", {})]
+                res.oracle_violations.append({"payload": {"text": text, "wkw": wkw, "k": k, "rkw": rkw}, "what": "%s: %s" % (name, bad)})
+            ops = [("R", rkw), ("W", wkw), ("R", rkw), ("W", wkw), ("R", rkw)]
             c, r = wm.coq_case(text, ops)
             cases.append(c)
             same_text.append(len(r["texts"]) >= 2 and r["texts"][0] == r["texts"][1])
             same_data.append(len(r["texts"]) >= 2 and data_part(r["texts"][0]) == data_part(r["texts"][1]))
             meta.append((name, text, ops))
-            kinds.add((name, tuple(sorted((a, str(b)) for a, b in wkw.items()))))
-            hist["corpus" if name.startswith("corpus") else "generated"] += 1
+            kinds.add((name, tuple(sorted((a, str(b)) for a, b in wkw.items())), tuple(sorted(rkw.items()))))
+            hist["corpus" if name.startswith("corpus") else ("dlm_comma_tab" if name.startswith("dlm") else "generated")] += 1
+            hist["read_options"] += bool(rkw)
+            hist["lhs_spacer"] += "lhs_spacer" in wkw
+            hist["column_fmt_j_gt_0"] += any(j > 0 for j in (wkw.get("column_fmt") or {}))
     # explicit STRT/STOP/STEP keyword values given on every cycle (implementation-side oracle only: the writer model
     # leaves STRT/STOP/STEP to lasio, as C16 does)
     n_explicit = 0
@@ -161,31 +220,64 @@ def run(ctx):
                                            "what": "in the domain of C11_second_cycle_content_partial but lasio's second data lines differ"})
     else:
         res.corr_error = "model not built"
+    # a class of accepted inputs that turns into rejected ones must not shrink the sample silently
+    if not_accepted or n_corpus < MIN_CORPUS:
+        res.corr_error = ((res.corr_error + "; ") if res.corr_error else "") + \
+            ("%d input(s) built as accepted were not accepted (%s); %d example files passed the corpus filter (expected >= %d)"
+             % (len(not_accepted), "; ".join(not_accepted[:3]), n_corpus, MIN_CORPUS))
     res.cases = len(cases) + n_explicit
     res.distinct_nontrivial = len(kinds)
     res.rule = ("accepted inputs = the readable/writable ASCII LAS 1.2/2.0 example files plus generated files with odd features "
-                "(.1IN unit, duplicated/blank mnemonics, empty value with unit, long fields) x writer option sets x 2..5 "
-                "read->write cycles; non-trivial = distinct (base, option set)")
+                "(.1IN unit, duplicated/blank mnemonics, empty value with unit, long fields) and generated DLM COMMA/TAB files x writer "
+                "option sets (versions, wrap, formats, column_fmt for j >= 0, field width, spacer, lhs_spacer, header styles; ',' ';' '' "
+                "spacers on the implementation side) x read options (default, mnemonic_case, engine, ignore_header_errors) x 2..5 "
+                "read->write cycles; non-trivial = distinct (base, option set, read options)")
     res.samples = [meta[0][0], repr(meta[0][2][1])] if meta else []
     res.histogram = hist
     return res
 
 
-def replay(payload):
-    wkw = dict(payload["wkw"])
+def fix_wkw(wkw):
+    wkw = dict(wkw)
     if "column_fmt" in wkw:
         wkw["column_fmt"] = {int(a): b for a, b in wkw["column_fmt"].items()}
-    bad, st = oracle(payload["text"], wkw, payload["k"])
+    return wkw
+
+
+def replay(payload):
+    bad, st = oracle(payload["text"], fix_wkw(payload["wkw"]), payload["k"], payload.get("rkw"))
     return bad is not None, bad or "ok"
+
+
+def finding_of(payload):
+    """nonblank-spacer: the writer options hold a spacer that is not a run of blanks/tabs, the chain fails, and the same chain with that
+    spacer replaced by ' ' does not fail (anything else wrong on the payload is another violation)"""
+    try:
+        wkw = fix_wkw(payload["wkw"])
+        if not nonblank(wkw):
+            return None
+        bad, st = oracle(payload["text"], wkw, payload["k"], payload.get("rkw"))
+        if st != "ok" or not bad or not bad.startswith(NONBLANK_TAG):
+            return None
+        w2 = dict(wkw)
+        w2["spacer"] = " "
+        bad2, st2 = oracle(payload["text"], w2, payload["k"], payload.get("rkw"))
+        if st2 == "ok" and bad2 is None:
+            return "nonblank-spacer"
+    except Exception:
+        return None
+    return None
 
 
 def search(ctx, res):
     import random
     rng = random.Random(ctx.seed + 41)
-    bs = [("corpus:" + n, t) for n, t in corpus_files.corpus()] + [("gen", corpus_files.generated(rng)) for _ in range(300)]
+    bs = [("corpus:" + n, t) for n, t in corpus_files.corpus()] + [("gen", corpus_files.generated(rng)) for _ in range(300)] + \
+        [("dlm", delimited_base(rng)) for _ in range(60)]
     for name, text in bs:
         for wkw in WOPTS:
-            bad, st = oracle(text, wkw, 3)
+            rkw = rng.choice(ROPTS)
+            bad, st = oracle(text, wkw, 3, rkw)
             if st == "ok" and bad:
-                yield {"payload": {"text": text, "wkw": wkw, "k": 3}, "what": "%s: %s" % (name, bad)}
+                yield {"payload": {"text": text, "wkw": wkw, "k": 3, "rkw": rkw}, "what": "%s: %s" % (name, bad)}
                 return
